@@ -17,6 +17,83 @@ def bodies(E, meth):
 def ident(E_, st, frame, callee, argvals, dest_ty):
     return dict(argvals[0])
 
+def check_find(res, E, tier):
+    """Archive::find walks a bucket chain; what it returns as `prev` is what delete_found / update unlink with.
+    On every path that finds the object in iteration k (k up to 3 / 5), prev is the position visited in iteration
+    k-1, and None for k = 0; the reported start is the position of iteration k."""
+    body = [b for n, b_ in E.prog.bodies.items() if re.search(r"archive::.*::find$", n) for b in b_]
+    if len(body) != 1:
+        res.inconclusive.append("Archive::find: %d candidate bodies" % len(body))
+        return 0
+    body = body[0].parse()
+    res.functions.append("routinator::utils::archive::Archive::find (MIR, %d blocks): predecessor bookkeeping" % len(body.blocks))
+    cnt = [0]
+
+    def m_eq(E_, st, frame, callee, argvals, dest_ty):
+        # each comparison of the wanted name with a stored name has its own outcome
+        cnt[0] += 1
+        st.events.append(mir.Event("NAME-EQ", argvals, None, ("", ""), "call", callee))
+        return {(): z3.Bool("name_eq_%d" % cnt[0])}
+
+    def m_fresh_int(E_, st, frame, callee, argvals, dest_ty):
+        cnt[0] += 1
+        return {(): z3.BitVec("len_%d" % cnt[0], 64)}
+    fo = mir.struct_fields("FoundObject", "src/utils/archive.rs")
+    pre_ = (("v", "Ok"), ("f", 0), ("v", "Some"), ("f", 0))
+    n = 0
+    bad = None
+    K = 4 if tier == "quick" else 6
+    for i, p in enumerate(E.explore(body, max_visits=K, nomut=[r"."], models={r"as PartialEq(<.*>)?>::eq$": m_eq})):
+        if p.kind != "return":
+            continue
+        d = p.ret.get((("v", "Ok"), ("f", 0), "disc"))
+        if d is None or not E.feasible(p.cond, d == 1):
+            continue
+        n += 1
+        reads = [x for x, e in enumerate(p.events) if e.kind == "call" and re.search(r"ObjectHeader::read(_with_name)?$", e.name)]
+        visited = []
+        for x in reads:
+            src = [e for e in p.events[:x] if e.kind == "call" and e.name.endswith("Into::into")]
+            v = src[-1].args[0].get(()) if src else None
+            # several reads of one entry (header, then name) are one visit
+            if not (visited and isinstance(v, mir.Opq) and isinstance(visited[-1], mir.Opq) and visited[-1].id == v.id):
+                visited.append(v)
+        if not visited:
+            res.inconclusive.append("Archive::find path %d: a hit without any header read" % i)
+            continue
+        pd = p.ret.get(pre_ + (("f", fo.index("prev")), "disc"))
+        pv = p.ret.get(pre_ + (("f", fo.index("prev")), ("v", "Some"), ("f", 0)))
+        k = len(visited) - 1
+        same = lambda a, b: isinstance(a, mir.Opq) and isinstance(b, mir.Opq) and a.id == b.id
+        if k == 0:
+            ok = pd is not None and not E.feasible(p.cond, pd != 0)
+            what = "found in the first chain entry, yet prev is not None"
+        else:
+            ok = pd is not None and not E.feasible(p.cond, pd != 1) and same(pv, visited[k - 1])
+            what = ("found in chain entry %d: prev is %s, not the entry visited just before (%r)" % (
+                k, "None" if pd is not None and not E.feasible(p.cond, pd != 0) else repr(pv), visited[k - 1]))
+        if not ok and bad is None:
+            bad = (i, p, what)
+    res.distinct += n
+    res.samples.append({"find_paths_with_a_hit": n, "chain_entries_walked_up_to": K - 1})
+    if n < 3:
+        res.inconclusive.append("vacuity: Archive::find has %d paths that find the object" % n)
+    if bad:
+        i, p, what = bad
+        import nativetest
+        failed, passed, out = nativetest.run_native_test("native_c26", "c26_native_bucket_chain_delete")
+        m = re.search(r"C26-NATIVE-BUCKET (.*)", out)
+        res.evaluations += 1
+        fn = mprop.write_cex(res, "find_prev_%d" % i, p, E, "Archive::find: " + what + "\n\nnative replay: " + (m.group(1) if m else out[-1500:]))
+        if failed:
+            res.violation("mir:find-wrong-predecessor", "Archive::find reports a wrong predecessor (" + what + "): delete / size-changing update then unlink the wrong "
+                          "entry and objects drop off their bucket chain; reproduced natively: " + (m.group(1)[:300] if m else "test failed"), fn)
+        elif passed:
+            res.inconclusive.append("Archive::find: %s - not reproduced natively" % what)
+        else:
+            res.inconclusive.append("Archive::find: %s - native replay could not be built" % what)
+    return n
+
 
 def run(res, tier):
     global CHAIN
@@ -135,6 +212,7 @@ def run(res, tier):
         total += check_empty_chain(res, E, op, mode)
         mprop.finish_engine(res, E)
     E = mprop.engine(res)
+    total += check_find(res, E, tier)
     res.distinct += total
     if total < 4:
         res.inconclusive.append("vacuity: only %d arithmetic paths checked" % total)
@@ -146,6 +224,7 @@ def run(res, tier):
     res.bounds.append("bucket chain: ONE call of publish_append / publish_replace / delete_found from an arbitrary archive whose "
                       "chain of objects with the operation's hash has 0..%d cells: afterwards the chain reachable from the bucket "
                       "index is the new object followed by the old cells, resp. the old cells without the deleted one" % CHAIN)
+    res.bounds.append("Archive::find: bucket chains of up to %d entries walked; a hit in entry k reports entry k-1 as predecessor" % (3 if tier == "quick" else 5))
     res.outside += ["the map behaviour of the archive over operation sequences (publish / update / delete / fetch, reopen), "
                     "name comparison inside a bucket and the byte-level tiling of the file: object headers are modelled as an abstract heap "
                     "(position -> size, next, is_empty), I/O errors in the middle of an operation are not considered"]
